@@ -1070,6 +1070,8 @@ where
         reply_receiver: CmdReplyReceiver,
         key_num: usize,
     ) -> TaskResult {
+        // There are no keys beyond the end of the command: never iterate further than its length.
+        let key_num = std::cmp::min(key_num, cmd_ctx.get_cmd().get_command_len().unwrap_or(0));
         let keys: Vec<_> = (3..3 + key_num)
             .filter_map(|i| cmd_ctx.get_cmd().get_command_element(i))
             .map(|b| b.to_vec())
